@@ -1,14 +1,15 @@
 (* C09 - binary model files load back as the identical model.
 
    Proved for ALL inputs (no size bound) on the model of Model/Codec.v:
-   - little-endian integer codec, header framing (make_header / read_header), section framing
-     (Section.dumps / Section.load) - complete, parametric in the JSON / payload decoder;
-   - the BQM body (offset, (nidx, bias) records, full neighbourhoods) for any number of variables.
-   Partial (named _partial): the JSON text layer (header dictionary, label lists) enters the file-level
-   statements as hypotheses `jd_ok` / `pd_ok`; it is exercised byte-for-byte by the correspondence
-   check only.  QM and expression files: model + correspondence, framing theorems apply section by section. *)
+   - little-endian integers, header framing (make_header / read_header), section framing (Section.dumps / load);
+   - the JSON text layer for the modelled subset: header dictionaries (BQM, QM, expression) and label arrays
+     (integers incl. negative, printable-ASCII strings with the quote / backslash escapes, nested arrays for tuples):
+     the rigid parser inverts the printer.  Float labels, non-ASCII and control characters are NOT modelled
+     (exercised by the implementation round trip only);
+   - whole BQM files (versions 1.0 and 2.0), whole QM files, whole expression members: decode (encode f) = f. *)
 From Coq Require Import List NArith ZArith Arith Bool.
-From Dimod Require Import Gen.Gen_Codec Model.Codec Model.ChkC09 Proofs.CodecBase Proofs.CodecFrame Proofs.CodecBqm Proofs.CodecBqmTop.
+From Dimod Require Import Gen.Gen_Codec Model.Codec Model.ChkC09 Proofs.CodecBase Proofs.CodecFrame Proofs.CodecBqm Proofs.CodecBqmTop
+  Proofs.CodecLabel Proofs.CodecJson Proofs.CodecBqmFull Proofs.CodecQm Proofs.CodecExpr.
 Import ListNotations.
 
 Theorem le_decode_encode : forall n x, (x < 256 ^ N.of_nat n)%N -> le_dec (le_enc n x) = x.
@@ -53,7 +54,7 @@ Proof. intros magic nlen p. exact (CodecFrame.section_aligned magic nlen p). Qed
 Print Assumptions section_aligned.
 
 (* the unframed BQM body: offset, n x (nidx, bias), all neighbourhoods in full *)
-Theorem bqm_body_decode_encode_partial :
+Theorem bqm_body_decode_encode :
   forall w off lin adj m rest,
     length off = w ->
     Forall (fun b => length b = w) lin ->
@@ -68,15 +69,33 @@ Proof.
   - destruct lin; [|discriminate]. destruct adj; [|discriminate]. exact (body_nil_rt w m off H1 rest).
   - exact (body_rt w off lin adj m H1 H2 H3 H4 H5 H6 E rest).
 Qed.
-Print Assumptions bqm_body_decode_encode_partial.
+Print Assumptions bqm_body_decode_encode.
 
-(* whole BQM files, versions 1.0 and 2.0: loading what was written gives back the file content.
-   _partial: the JSON text layers are hypotheses - HdrOK: json.loads inverts json.dumps on this header
-   dictionary and rejects its proper prefixes; LabelsOK: the same for the label list. *)
-Theorem bqm_decode_encode_partial : forall f, BqmWF f -> HdrOK (bqm_hdr f) ->
-  (forall l, bf_labels f = Some l -> LabelsOK l) -> run bqm_decode (bqm_encode f) = Ok f.
-Proof. exact CodecBqmTop.bqm_decode_encode. Qed.
-Print Assumptions bqm_decode_encode_partial.
+(* json.loads inverts json.dumps on label arrays (VARS payload, v1 header, variable_labels.json); tuples come back
+   as tuples (LTup), arbitrary nesting *)
+Theorem label_roundtrip : forall ls j, LabelsWF ls -> labels_dec (pr_labels ls ++ spaces j) = Some ls.
+Proof. exact CodecLabel.label_roundtrip. Qed.
+Print Assumptions label_roundtrip.
+
+(* ... and on the BQM header dictionary, followed by any whitespace (newline + padding) *)
+Theorem bqm_header_json_roundtrip : forall h ws, HvWF (h_vars h) -> forallb is_ws ws = true ->
+  bqm_jd (bqm_json h ++ ws) = Some h.
+Proof. intros h ws W. exact (proj1 (bqm_hdr_ok h W) ws). Qed.
+Print Assumptions bqm_header_json_roundtrip.
+
+(* whole BQM files, versions 1.0 and 2.0, no hypotheses beyond well-formedness of the content
+   (widths, index ranges, sizes below 2^32, labels in the modelled subset) *)
+Theorem bqm_decode_encode : forall f, BqmWFL f -> run bqm_decode (bqm_encode f) = Ok f.
+Proof. exact CodecBqmFull.bqm_decode_encode_full. Qed.
+Print Assumptions bqm_decode_encode.
+
+Theorem qm_decode_encode : forall f, QmWF f -> run qm_decode (qm_encode f) = Ok f.
+Proof. exact CodecQm.qm_decode_encode. Qed.
+Print Assumptions qm_decode_encode.
+
+Theorem expr_decode_encode : forall f, ExprWF f -> run expr_decode (expr_encode f) = Ok f.
+Proof. exact CodecExpr.expr_decode_encode. Qed.
+Print Assumptions expr_decode_encode.
 
 (* hypotheses are satisfiable on non-trivial data: the implementation's own bytes of
    BQM({'a':1.5,'b':-2,('t',1):.25},{('a','b'):3},.5,'SPIN') *)
